@@ -121,6 +121,7 @@ type gen struct {
 	probes       [][2]string       // (op line, observation) of UpdateProposalOracles probes against the real keeper
 	tallies      [][2]string       // (op line, observation) of gov Tally probes
 	erc20Holders [][2]string       // (external token contract, user index) of deposits that were converted to the ERC-20 side
+	lastSwitch   *fxgovtypes.SwitchParams // the switch parameters of the previous governance change
 }
 
 // bridgeTok is a many-to-one coin registered by governance whose aliases are its bridge denominations.
@@ -283,6 +284,8 @@ func (g *gen) txv(k detx.Key, bad string, gas uint64, msgs ...sdk.Msg) {
 		t.Fee = sdk.NewCoins()
 	case "wrong-fee-denom":
 		t.Fee = sdk.NewCoins(sdk.NewCoin("usdt", sdkmath.NewInt(1_000_000)))
+		advance = false
+	case "ante-reject": // a well-formed transaction the generator EXPECTS the ante handler to refuse (disabled message type): the sequence stays
 		advance = false
 	case "tight-sim", "tight-last": // gas limit at / just around what the transaction needs (decided below)
 	default:
@@ -1005,6 +1008,7 @@ func (g *gen) run() {
 			return &crosschaintypes.MsgSendToExternalClaim{EventNonce: n4, BlockHeight: h4, BatchNonce: bn, TokenContract: tc, BridgerAddress: b, ChainName: ethChain}
 		}, 0)
 	}
+	g.switchTraffic() // before any switch-parameter change: everything is enabled
 	g.endBlock(short, "batch executed claim")
 
 	// ---- phase 8: fx governance messages, passing, rejected and failing on execution
@@ -1037,13 +1041,14 @@ func (g *gen) run() {
 		{g.submit(g.users[4], "", fx(10_000), "drop several small oracles", &crosschaintypes.MsgUpdateChainOracles{ChainName: ethChain, Authority: g.govAddr, Oracles: dropSmall}), yes},
 		{g.submit(g.users[5], "", fx(10_000), "drop too much power", &crosschaintypes.MsgUpdateChainOracles{ChainName: ethChain, Authority: g.govAddr, Oracles: dropBig}), yes},
 		{g.submit(g.users[0], "", fx(10_000), "spend", &distrtypes.MsgCommunityPoolSpend{Authority: g.govAddr, Recipient: g.users[0].Addr(), Amount: sdk.NewCoins(fxFrac(1))}), yes},
+		{g.submit(g.users[2], "", fx(10_000), "switch params", &fxgovtypes.MsgUpdateSwitchParams{Authority: g.govAddr, Params: g.switchParams(0)}), yes},
 	}
 	g.submit(g.users[4], "", fx(10_000), "bad eth params", &crosschaintypes.MsgUpdateParams{ChainName: ethChain, Authority: g.govAddr, Params: badParams}) // rejected at submission
 	g.endBlock(short, "fx gov proposals")
 	perm := g.rng.Perm(len(props))
 	for _, pi := range perm {
 		// the oracle-set and parameter proposals must come out as planned; the others may lose votes to tight gas limits
-		g.voteAllT(props[pi].id, props[pi].vote, pi != 2 && pi != 6 && pi != 7 && pi != 8)
+		g.voteAllT(props[pi].id, props[pi].vote, pi != 2 && pi != 6 && pi != 7 && pi != 8 && pi != 10)
 	}
 	g.endBlock(short, "votes")
 	// gov Tally of every proposal in its voting period, on a discarded branch: the real result against the sum of the
@@ -1080,6 +1085,7 @@ func (g *gen) run() {
 	cu := g.anyUser()
 	g.tx(cu, &erc20types.MsgConvertCoin{Coin: fx(1), Receiver: cu.Hex().Hex(), Sender: cu.Addr()})
 	g.ibcTraffic(1 + g.rng.Intn(3))
+	g.switchTraffic() // right after the first switch-parameter change
 	g.endBlock(short, "convert after toggle")
 	for k := 0; k < 7; k++ {
 		if k == 2 {
@@ -1100,6 +1106,9 @@ func (g *gen) run() {
 		g.tx(from, banktypes.NewMsgSend(from.Acc(), g.anyUser().Acc(), sdk.NewCoins(fxFrac(int64(1+g.rng.Intn(99))))))
 		if k%2 == 1 {
 			g.ibcTraffic(1)
+		}
+		if k == 1 || k == 5 {
+			g.switchTraffic()
 		}
 		g.endBlock(short, "signed window / slashing")
 	}
@@ -1146,7 +1155,9 @@ func (g *gen) run() {
 	pPanic := g.submit(g.users[4], "", fx(10_000), "register TKZ", &erc20types.MsgRegisterCoin{Authority: g.govAddr,
 		Metadata: fxtypes.GetCrossChainMetadataManyToOne("Token TKZ", "TKZ", 18)})
 	pAfter := g.submit(g.users[0], "", fx(10_000), "toggle after", &erc20types.MsgToggleTokenConversion{Authority: g.govAddr, Token: fxtypes.DefaultDenom})
+	pSwitch2 := g.submit(g.users[1], "", fx(10_000), "switch params again", &fxgovtypes.MsgUpdateSwitchParams{Authority: g.govAddr, Params: g.switchParams(1)})
 	g.endBlock(short, "proposals whose handlers read the erc20 params")
+	g.voteAll(pSwitch2, yes)
 	g.voteAll(pPanic, yes)
 	g.voteAllT(pAfter, yes, true)
 	g.endBlock(short, "votes")
@@ -1163,7 +1174,10 @@ func (g *gen) run() {
 	g.eth(g.ethUser(), "transfer(after-params-overwrite)", "", addr(g.users[0].Hex().Hex()), big.NewInt(99), 21000, nil)
 	from := g.anyUser()
 	g.tx(from, banktypes.NewMsgSend(from.Acc(), g.anyUser().Acc(), sdk.NewCoins(fxFrac(5))))
+	g.switchTraffic() // right after the second switch-parameter change
 	g.endBlock(short, "final")
+	g.switchTraffic()
+	g.endBlock(short, "after final")
 	g.probeValidatorList()
 	g.probeAcks()
 	ctx := g.c.Ctx()
